@@ -9,6 +9,7 @@ for log in sys.argv[1:]:
         if not m: continue
         name, code, inc, first = m.group(1), m.group(2), int(m.group(3)), m.group(4).strip()
         p = os.path.join(V, 'seeded', name, 'meta.json')
+        if not os.path.exists(p): continue          # benign/<i>@<property> lines have no meta file
         d = json.load(open(p))
         code = int(code) if code else None
         d['detected_by'] = {'check': f'./check {name.split("-")[0]} --tier quick', 'exit': code, 'first_line': first, 'inconclusive_lines': inc,
